@@ -130,7 +130,15 @@ def main(ctx, replay=None):
                 if bad_n and pm + 20 * dp < hi:
                     ds.settings.update({"P_MIN": pm, "DELTA_P": dp, "DELTA_P_SAMPLE": dp, "NTV": int(rng.choice(bad_n))})
                     ds.settings["NT"] = ds.settings["NTV"] - 4    # (keeps the coincidence of the two axis lengths)
-            if n % 2 == 0:
+            if n % 3 == 2:
+                # a pressure grid written in whole numbers without decimal point ("P_MIN: 0", "DELTA_P: 2"): the same grid as 0.0 / 2.0
+                import math
+                pm_i = int(math.ceil(lo + 0.25))
+                for dp_i in (2, 1):
+                    if pm_i + (int(ds.settings["NTV"]) - 1) * dp_i < hi - 0.25:
+                        ds.settings.update({"P_MIN": pm_i, "DELTA_P": dp_i, "DELTA_P_SAMPLE": dp_i})
+                        break
+            if n % 2 == 0 and n % 3 != 2:
                 # a second calculation in the same process on the SAME pressure grid (P_MIN, DELTA_P, NTV) but another material and
                 # another volume_ratio: its conversion must use its own P(T,V) field.  The shared grid lies inside both ranges.
                 ds2 = copy.deepcopy(ds)
